@@ -581,13 +581,6 @@ theorem takeWhile_word {name rest : Str} (hn : name.all isWordCh = true) (hr : r
     have := ih hn.2
     simp [List.takeWhile, List.dropWhile, hn.1, this.1, this.2]
 
-/-- what may follow the closing parenthesis: blanks, an optional semicolon, blanks -/
-def cmdTail (t : Str) : Bool :=
-  match dropSpaces t with
-  | [] => true
-  | 59 :: u => allSpace u
-  | _ => false
-
 /-- `^(\w+)\s*\((.*)\)\s*;?\s*$` on a command as written -/
 theorem cmdLine_written {name gap argText tl : Str} (hne : name ≠ []) (hn : name.all isWordCh = true)
     (hg : blank gap = true) (ht : cmdTail tl = true) (h41 : 41 ∉ tl) :
